@@ -2,7 +2,9 @@
 //!
 //! Provides time and date indication with timezone offset for time-sensitive payment processing and settlement timing.
 
-use super::swift_utils::{parse_date_yymmdd, parse_exact_length, parse_numeric, parse_time_hhmm};
+use super::swift_utils::{
+    parse_date_yymmdd, parse_exact_length, parse_swift_digits, parse_time_hhmm,
+};
 use crate::errors::ParseError;
 use crate::traits::SwiftField;
 use chrono::{NaiveDate, NaiveTime};
@@ -157,8 +159,14 @@ impl SwiftField for Field13C {
         }
 
         // Parse time (4 digits)
+        if !remaining.is_ascii() {
+            return Err(ParseError::InvalidFormat {
+                message: "Field 13C time and offset must be ASCII".to_string(),
+            });
+        }
+
         let time_str = &remaining[0..4];
-        parse_numeric(time_str, "Field 13C time")?;
+        parse_swift_digits(time_str, "Field 13C time")?;
         let time = parse_time_hhmm(time_str)?;
 
         // Parse UTC offset sign
@@ -174,7 +182,7 @@ impl SwiftField for Field13C {
 
         // Parse offset (4 digits)
         let offset = parse_exact_length(&remaining[5..9], 4, "Field 13C offset")?;
-        parse_numeric(&offset, "Field 13C offset")?;
+        parse_swift_digits(&offset, "Field 13C offset")?;
 
         // Validate offset is reasonable (up to 14 hours)
         let offset_hours: u32 = offset[0..2].parse().unwrap();
@@ -253,11 +261,17 @@ impl SwiftField for Field13D {
         }
 
         // Parse date (first 6 digits)
+        if !input.is_ascii() {
+            return Err(ParseError::InvalidFormat {
+                message: "Field 13D must be ASCII".to_string(),
+            });
+        }
+
         let date = parse_date_yymmdd(&input[0..6])?;
 
         // Parse time (next 4 digits)
         let time_str = &input[6..10];
-        parse_numeric(time_str, "Field 13D time")?;
+        parse_swift_digits(time_str, "Field 13D time")?;
         let time = parse_time_hhmm(time_str)?;
 
         // Parse UTC offset sign
@@ -273,7 +287,7 @@ impl SwiftField for Field13D {
 
         // Parse offset (last 4 digits)
         let offset = parse_exact_length(&input[11..15], 4, "Field 13D offset")?;
-        parse_numeric(&offset, "Field 13D offset")?;
+        parse_swift_digits(&offset, "Field 13D offset")?;
 
         // Validate offset is reasonable
         let offset_hours: u32 = offset[0..2].parse().unwrap();
